@@ -372,6 +372,602 @@ theorem conn_seq (S : Seeded tbl mode spec s c) :
           rw [e3] at this
           exact this
 
+/-- connection for the node of an item of a super-sequence / strand / `equal` line -/
+theorem conn_item (S : Seeded tbl mode spec s c) {it : ItemRef} (hres : (spec.findSeq it.name).isSome = true)
+    {x : Nat} {n : Nuc} (hn : (nucsOfItem spec it)[x]? = some n) :
+    ∃ num cn, numOf spec it = some num ∧ Canon spec (encOf spec (layOf mode spec)) n cn ∧
+      GR c ((encOf spec (layOf mode spec)).sq num x) n.comp cn := by
+  obtain ⟨o', hf⟩ := Option.isSome_iff_exists.1 hres
+  obtain ⟨hmem, hname⟩ := findSeq_mem hf
+  obtain ⟨j, hj, hje⟩ := List.getElem_of_mem hmem
+  have hjo : spec.seqs[j]? = some o' := by rw [List.getElem?_eq_getElem hj, hje]
+  have hnit : (viewNucs o' it.rev)[x]? = some n := by
+    have : nucsOfItem spec it = viewNucs o' it.rev := by simp [nucsOfItem, hf]
+    rw [← this]; exact hn
+  obtain ⟨num, cn, hnum, hcan, hreach⟩ := conn_seq S j o' hjo it.rev x n hnit
+  have hitEq : (⟨o'.name, it.rev⟩ : ItemRef) = it := by cases it; simp_all
+  rw [hitEq] at hnum
+  exact ⟨num, cn, hnum, hcan, hreach⟩
+
+/-- connection for the positions of a strand (through `strand_start`), both layouts -/
+theorem conn_strandPos (S : Seeded tbl mode spec s c) {k : Nat} {o : StrandObj} (hko : (k, o) ∈ enum spec.strands)
+    {y : Nat} (hy : y < o.len) {n : Nuc} (hn : (nucsOfBases o.bases)[y]? = some n) :
+    ∃ a cn, getIndexStrand (layOf mode spec) k o.len y = .ok a ∧ Canon spec (encOf spec (layOf mode spec)) n cn ∧
+      GR c a n.comp cn := by
+  have wf := S.wf
+  obtain ⟨li, ce, be, ee, se, te, h1, h2, h3, h4, h5, h6, hseq⟩ := seeds_ok S.hs
+  have hte : ∀ e ∈ te, e ∈ s.eqE := by
+    intro e he; rw [hseq]; simp only [List.mem_append]; exact Or.inr he
+  have hmem : o ∈ spec.strands := (mem_enum hko).1
+  have okI := wf.strand o hmem
+  have hsum : (o.items.map (lenOf spec)).sum = o.len := by
+    rw [sum_lenOf_items wf okI, wf.strandLen o hmem]
+  obtain ⟨off, it, hoff, hle, hlt⟩ := withOffsets_cover (lenOf spec) o.items (y := y) (by rw [hsum]; exact hy)
+  have hx' : y - off < lenOf spec it := by omega
+  obtain ⟨a, num, ha, hnum, hedge⟩ := strandEdges_has h6 hko hoff hx'
+  have hye : off + (y - off) = y := by omega
+  rw [hye] at ha
+  obtain ⟨hidx, _⟩ := items_index wf okI hoff hx'
+  rw [hye, hn] at hidx
+  obtain ⟨num', cn, hnum', hcan, hreach⟩ := conn_item S (okI.resolve it (withOffsets_mem _ _ _ hoff)) hidx.symm
+  rw [hnum] at hnum'; cases hnum'
+  refine ⟨a, cn, ha, hcan, ?_⟩
+  have := (S.eqEdge (hte _ hedge)).trans hreach
+  simpa using this
+
+/-- **Connection, layout positions** (both layouts) -/
+theorem conn_pos (S : Seeded tbl mode spec s c) {p : Nat} {m : Nuc} (hpm : (p, m) ∈ posTabOf mode spec) :
+    ∃ cn, Canon spec (encOf spec (layOf mode spec)) m cn ∧ GR c p m.comp cn := by
+  have wf := S.wf
+  cases mode with
+  | strand =>
+    unfold posTabOf at hpm
+    simp only at hpm
+    unfold posTabStrand at hpm
+    obtain ⟨⟨k, o⟩, hko, hpm⟩ := List.mem_flatMap.1 hpm
+    obtain ⟨y, hy, hpe⟩ := List.mem_map.1 hpm
+    have hyl := List.mem_range.1 hy
+    simp only [Prod.mk.injEq] at hpe
+    obtain ⟨rfl, rfl⟩ := hpe
+    obtain ⟨n, hn⟩ := getElem?_some_of_lt (l := nucsOfBases o.bases) (i := y)
+      (by rw [wf.strandLen o (mem_enum hko).1]; exact hyl)
+    have hgd : (nucsOfBases o.bases).getD y dfltNuc = n := by simp [List.getD_eq_getElem?_getD, hn]
+    rw [hgd]
+    obtain ⟨a, cn, ha, hcan, hreach⟩ := conn_strandPos S hko hyl hn
+    rw [layOf_strand, getIndexStrand_strand spec (mem_enum_lt hko) hyl] at ha
+    cases ha
+    exact ⟨cn, hcan, hreach⟩
+  | struct =>
+    obtain ⟨li, ce, be, ee, se, te, h1, h2, h3, h4, h5, h6, hseq⟩ := seeds_ok S.hs
+    have hce : ∀ e ∈ ce, e ∈ s.eqE := by
+      intro e he; rw [hseq]; simp only [List.mem_append]; exact Or.inl (Or.inl (Or.inl he))
+    unfold posTabOf at hpm
+    simp only at hpm
+    unfold posTabStruct at hpm
+    obtain ⟨⟨j, so⟩, hjso, hpm⟩ := List.mem_flatMap.1 hpm
+    obtain ⟨y, hy, hpe⟩ := List.mem_map.1 hpm
+    have hyl := List.mem_range.1 hy
+    simp only [Prod.mk.injEq] at hpe
+    obtain ⟨rfl, rfl⟩ := hpe
+    have hso : so ∈ spec.structs := (mem_enum hjso).1
+    obtain ⟨off', ⟨k, o⟩, hoff', hle', hlt'⟩ := withOffsets_cover (fun (q : Nat × StrandObj) => q.2.len)
+      (structStrands spec so) (y := y) (by rw [← wf.structLen so hso]; exact hyl)
+    simp only at hlt'
+    have hy' : y - off' < o.len := by omega
+    have hko : (k, o) ∈ enum spec.strands := structStrands_mem wf (withOffsets_mem _ _ _ hoff')
+    obtain ⟨a1, b1, ha1, hb1, hedge⟩ := copyEdges_has h2 hjso hoff' hy'
+    have hye : off' + (y - off') = y := by omega
+    rw [hye, layOf_struct, getIndex_struct wf hso hyl] at hb1
+    cases hb1
+    have hl : ∀ q ∈ structStrands spec so, (nucsOfBases q.2.bases).length = q.2.len :=
+      fun q hq => wf.strandLen q.2 (mem_enum (structStrands_mem wf hq)).1
+    obtain ⟨hidx, _⟩ := flatMap_offset_getElem? (fun (q : Nat × StrandObj) => q.2.len)
+      (fun q => nucsOfBases q.2.bases) (structStrands spec so) 0 hl hoff' hy'
+    simp only [Nat.sub_zero] at hidx
+    rw [hye] at hidx
+    obtain ⟨n, hn⟩ := getElem?_some_of_lt (l := nucsOfBases o.bases) (i := y - off')
+      (by rw [wf.strandLen o (mem_enum hko).1]; exact hy')
+    have hgd : (structNucsM spec so).getD y dfltNuc = n := by
+      unfold structNucsM
+      simp [List.getD_eq_getElem?_getD, hidx, hn]
+    rw [hgd]
+    obtain ⟨a, cn, ha, hcan, hreach⟩ := conn_strandPos S hko hy' hn
+    rw [ha1] at ha
+    cases ha
+    exact ⟨cn, hcan, by simpa using (S.symm (S.eqEdge (hce _ hedge))).trans hreach⟩
+
+/-! ## canonical nodes are unique; links are realised between them -/
+
+/-- the canonical node of a domain position -/
+def CanonV (spec : Spec) (e : Enc) (v : Var) (cn : Nat) : Prop :=
+  ∃ k ob, (k, ob) ∈ enum spec.baseSeqs ∧ ob.name = v.dom ∧ v.idx < ob.len ∧ cn = e.sq (2 * k) v.idx
+
+theorem canon_iff (e : Enc) (n : Nuc) (cn : Nat) : Canon spec e n cn ↔ CanonV spec e n.var cn := Iff.rfl
+
+theorem nodup_getElem_inj {α : Type} {l : List α} (hn : l.Nodup) {i j : Nat} {a : α} (hi : l[i]? = some a)
+    (hj : l[j]? = some a) : i = j := by
+  obtain ⟨hi1, hi2⟩ := List.getElem?_eq_some_iff.1 hi
+  obtain ⟨hj1, hj2⟩ := List.getElem?_eq_some_iff.1 hj
+  exact (List.getElem_inj hn).1 (hi2.trans hj2.symm)
+
+theorem nodup_of_map {α β : Type} (f : α → β) {l : List α} (h : (l.map f).Nodup) : l.Nodup := by
+  induction l with
+  | nil => simp
+  | cons a l ih =>
+    simp only [List.map_cons, List.nodup_cons] at h ⊢
+    exact ⟨fun hm => h.1 (List.mem_map.2 ⟨a, hm, rfl⟩), ih h.2⟩
+
+theorem baseSeqs_index_unique (wf : SpecWF spec) {k k' : Nat} {ob ob' : SeqObj} (h : (k, ob) ∈ enum spec.baseSeqs)
+    (h' : (k', ob') ∈ enum spec.baseSeqs) (hn : ob.name = ob'.name) : k = k' ∧ ob = ob' := by
+  have e1 := enum_getElem? h
+  have e2 := enum_getElem? h'
+  simp only at e1 e2
+  have hob : ob = ob' := seq_unique wf (mem_baseSeqs (List.mem_of_getElem? e1)).1
+    (mem_baseSeqs (List.mem_of_getElem? e2)).1 hn
+  subst hob
+  have hnd : spec.baseSeqs.Nodup := by
+    unfold Spec.baseSeqs
+    exact List.Nodup.sublist List.filter_sublist (nodup_of_map _ wf.seqNames)
+  exact ⟨nodup_getElem_inj hnd e1 e2, rfl⟩
+
+theorem canonV_unique (wf : SpecWF spec) (e : Enc) {v : Var} {c1 c2 : Nat} (h1 : CanonV spec e v c1)
+    (h2 : CanonV spec e v c2) : c1 = c2 := by
+  obtain ⟨k, ob, hk, hn, _, rfl⟩ := h1
+  obtain ⟨k', ob', hk', hn', _, rfl⟩ := h2
+  obtain ⟨rfl, _⟩ := baseSeqs_index_unique wf hk hk' (hn.trans hn'.symm)
+  rfl
+
+/-- the nodes of the members of an `equal` line are connected position by position -/
+theorem equal_node (S : Seeded tbl mode spec s c) {first : ItemRef} {rest : List ItemRef}
+    (hits : first :: rest ∈ spec.equals) {i : ItemRef} (hi : i ∈ first :: rest) {k : Nat} (hk : k < lenOf spec i) :
+    ∃ numF numI, numOf spec first = some numF ∧ numOf spec i = some numI ∧
+      GR c ((encOf spec (layOf mode spec)).sq numF k) false ((encOf spec (layOf mode spec)).sq numI k) := by
+  obtain ⟨li, ce, be, ee, se, te, h1, h2, h3, h4, h5, h6, hseq⟩ := seeds_ok S.hs
+  have hee : ∀ e ∈ ee, e ∈ s.eqE := by
+    intro e he; rw [hseq]; simp only [List.mem_append]; exact Or.inl (Or.inl (Or.inr he))
+  rcases List.mem_cons.1 hi with rfl | hir
+  · obtain ⟨num, hnum⟩ := numOf_isSome S.wf (S.wf.equal _ hits i List.mem_cons_self)
+    exact ⟨num, num, hnum, hnum, Reach.refl⟩
+  · obtain ⟨_, na, nb, hna, hnb, hedge⟩ := equalEdges_has h4 hits hir hk
+    exact ⟨na, nb, hna, hnb, S.eqEdge (hee _ hedge)⟩
+
+/-- a layout position named by `get_index` is in the table of positions with the structure's nucleotide -/
+theorem getIndex_pos (wf : SpecWF spec) {j : Nat} {so : StructObj} (hjso : (j, so) ∈ enum spec.structs) {x a : Nat}
+    (h : getIndex mode spec (layOf mode spec) j so x = .ok a) {m : Nuc} (hm : (structNucsM spec so)[x]? = some m) :
+    (a, m) ∈ posTabOf mode spec := by
+  have hso : so ∈ spec.structs := (mem_enum hjso).1
+  have hxl : x < so.len := by
+    unfold getIndex at h
+    by_cases hx : x < so.len
+    · exact hx
+    · simp [hx] at h
+  cases mode with
+  | strand =>
+    have hl : ∀ q ∈ structStrands spec so, q ∈ enum spec.strands := fun q hq => structStrands_mem wf hq
+    have hlen : ∀ q ∈ structStrands spec so, (nucsOfBases q.2.bases).length = q.2.len :=
+      fun q hq => wf.strandLen q.2 (mem_enum (hl q hq)).1
+    have h' : getIndexS (layStrand spec) (structStrands spec so) x = .ok a := by
+      unfold getIndex at h
+      simp only [hxl, if_true] at h
+      exact h
+    obtain ⟨q, hq, y, hy, rfl, hidx⟩ := getIndexS_spec _ hl hlen h'
+    unfold structNucsM at hm
+    rw [hidx] at hm
+    exact posTabStrand_mem (k := q.1) (o := q.2) (hl q hq) hy hm
+  | struct =>
+    rw [layOf_struct, getIndex_struct wf hso hxl] at h
+    cases h
+    exact posTabStruct_mem hjso hxl hm
+
+/-- **Every link of the semantic link graph is realised between canonical nodes.** -/
+theorem link_realised (S : Seeded tbl mode spec s c) {e : Link} (he : e ∈ links (Pil.denote spec)) :
+    ∃ ca cb, CanonV spec (encOf spec (layOf mode spec)) e.a ca ∧ CanonV spec (encOf spec (layOf mode spec)) e.b cb ∧
+      GR c ca e.odd cb := by
+  have wf := S.wf
+  rcases List.mem_append.1 he with he | he
+  · -- a link of an `equal` line
+    simp only [equalLinks, List.mem_flatMap] at he
+    obtain ⟨entry, hentry, r, hr, r', hr', hl⟩ := he
+    simp only [Pil.denote, List.mem_map] at hentry
+    obtain ⟨its, hits, rfl⟩ := hentry
+    obtain ⟨i1, hi1, hr1⟩ := List.mem_filterMap.1 hr
+    obtain ⟨i2, hi2, hr2⟩ := List.mem_filterMap.1 hr'
+    have res1 := wf.equal its hits i1 hi1
+    have res2 := wf.equal its hits i2 hi2
+    have hr1' : r = nucsOfItem spec i1 := by
+      obtain ⟨o, ho⟩ := Option.isSome_iff_exists.1 res1
+      simp [ho] at hr1
+      simp [nucsOfItem, ho, viewNucs, hr1]
+    have hr2' : r' = nucsOfItem spec i2 := by
+      obtain ⟨o, ho⟩ := Option.isSome_iff_exists.1 res2
+      simp [ho] at hr2
+      simp [nucsOfItem, ho, viewNucs, hr2]
+    subst hr1' hr2'
+    simp only [regionLinks, List.mem_map] at hl
+    obtain ⟨⟨m, n⟩, hz, rfl⟩ := hl
+    obtain ⟨k, hm, hn⟩ := mem_zip_getElem? hz
+    have hk1 : k < lenOf spec i1 := by rw [← nucsOfItem_length wf]; exact getElem?_lt hm
+    have hk2 : k < lenOf spec i2 := by rw [← nucsOfItem_length wf]; exact getElem?_lt hn
+    cases its with
+    | nil => cases hi1
+    | cons first rest =>
+      obtain ⟨numF, num1, hF, h1, g1⟩ := equal_node S hits hi1 hk1
+      obtain ⟨numF', num2, hF', h2, g2⟩ := equal_node S hits hi2 hk2
+      rw [hF] at hF'; cases hF'
+      obtain ⟨n1, c1, hn1, hc1, gr1⟩ := conn_item S res1 hm
+      obtain ⟨n2, c2, hn2, hc2, gr2⟩ := conn_item S res2 hn
+      rw [h1] at hn1; cases hn1
+      rw [h2] at hn2; cases hn2
+      refine ⟨c1, c2, hc1, hc2, ?_⟩
+      have := ((S.symm gr1).trans ((S.symm g1).trans g2)).trans gr2
+      simp only at this ⊢
+      have e : ((m.comp ^^ (false ^^ false)) ^^ n.comp) = (m.comp != n.comp) := by
+        cases m.comp <;> cases n.comp <;> rfl
+      rw [e] at this
+      exact this
+  · -- a base pair
+    obtain ⟨li, ce, be, ee, se, te, h1, h2, h3, h4, h5, h6, hseq⟩ := seeds_ok S.hs
+    have hbe : ∀ e ∈ be, e ∈ s.wcE := by
+      intro e he; rw [hseq]; simp only [List.mem_append]; exact Or.inl he
+    simp only [pairLinks, List.mem_flatMap, List.mem_filterMap] at he
+    obtain ⟨sd, hsd, ⟨x, y⟩, hxy, hl⟩ := he
+    simp only [Pil.denote, List.mem_map] at hsd
+    obtain ⟨so, hso, rfl⟩ := hsd
+    simp only at hl hxy
+    rw [structNucs_denote wf hso] at hl
+    rw [← getBonds_pairs (wf.struct so hso).2] at hxy
+    obtain ⟨j, hj, hje⟩ := List.getElem_of_mem hso
+    have hjso : (j, so) ∈ enum spec.structs := mem_enum_of_getElem? (by rw [List.getElem?_eq_getElem hj, hje])
+    obtain ⟨a, b, ha, hb, hedge⟩ := bondEdges_has h3 hjso hxy
+    split at hl
+    · rename_i m n hm hn
+      simp only [Option.some.injEq] at hl
+      subst hl
+      obtain ⟨c1, hc1, gr1⟩ := conn_pos S (getIndex_pos wf hjso ha hm)
+      obtain ⟨c2, hc2, gr2⟩ := conn_pos S (getIndex_pos wf hjso hb hn)
+      refine ⟨c1, c2, hc1, hc2, ?_⟩
+      have := ((S.symm gr1).trans (S.wcEdge (hbe _ hedge))).trans gr2
+      simp only at this ⊢
+      have e : ((m.comp ^^ true) ^^ n.comp) = (m.comp == n.comp) := by
+        cases m.comp <;> cases n.comp <;> rfl
+      rw [e] at this
+      exact this
+    · cases hl
+
+/-- **Semantic reachability is realised between canonical nodes.** -/
+theorem parityReach_graph (S : Seeded tbl mode spec s c) {v w : Var} {p : Bool}
+    (h : ParityReach (Pil.denote spec) v p w) {cv : Nat} (hv : CanonV spec (encOf spec (layOf mode spec)) v cv) :
+    ∃ cw, CanonV spec (encOf spec (layOf mode spec)) w cw ∧ GR c cv p cw := by
+  induction h with
+  | refl => exact ⟨cv, hv, Reach.refl⟩
+  | @fwd w' q e _ he ha ih =>
+    obtain ⟨cw, hcw, hr⟩ := ih
+    obtain ⟨ca, cb, hca, hcb, hl⟩ := link_realised S he
+    rw [ha] at hca
+    have := canonV_unique S.wf _ hca hcw
+    subst this
+    exact ⟨cb, hcb, by rw [bne_eq_xor']; exact hr.trans hl⟩
+  | @bwd w' q e _ he hb ih =>
+    obtain ⟨cw, hcw, hr⟩ := ih
+    obtain ⟨ca, cb, hca, hcb, hl⟩ := link_realised S he
+    rw [hb] at hcb
+    have := canonV_unique S.wf _ hcb hcw
+    subst this
+    exact ⟨ca, hca, by rw [bne_eq_xor']; exact hr.trans (S.symm hl)⟩
+
+theorem supSeqs_index_unique (wf : SpecWF spec) {k k' : Nat} {ob : SeqObj} (h : (k, ob) ∈ enum spec.supSeqs)
+    (h' : (k', ob) ∈ enum spec.supSeqs) : k = k' := by
+  have e1 := enum_getElem? h
+  have e2 := enum_getElem? h'
+  simp only at e1 e2
+  have hnd : spec.supSeqs.Nodup := by
+    unfold Spec.supSeqs
+    exact List.Nodup.sublist List.filter_sublist (nodup_of_map _ wf.seqNames)
+  exact nodup_getElem_inj hnd e1 e2
+
+/-- **Connection, any key**: every node of the seeded graph is connected to the canonical node of its nucleotide -/
+theorem conn_key (S : Seeded tbl mode spec s c) {y : Nat} (hy : y ∈ c.keys) {n : Nuc}
+    (hn : denOf mode spec y = some n) :
+    ∃ cn, Canon spec (encOf spec (layOf mode spec)) n cn ∧ GR c y n.comp cn := by
+  have wf := S.wf
+  have SS := seedSound wf S.ok S.hs S.hb
+  rw [SS.keys] at hy
+  rcases List.mem_append.1 hy with hy | hy
+  · obtain ⟨⟨p, m⟩, hpm, rfl⟩ := List.mem_map.1 hy
+    have := den_pos SS.D hpm
+    simp only at hn
+    unfold denOf at hn
+    rw [this] at hn
+    cases hn
+    exact conn_pos S hpm
+  · obtain ⟨p, hp, rfl⟩ := List.mem_map.1 hy
+    obtain ⟨num, o, x, hpx, ho, hmem, hx, _⟩ := seqInits_mem wf _ hp
+    have hden : denOf mode spec p.1 = (viewNucs o (revOfNum num))[x]? := by
+      unfold denOf
+      rw [hpx]; exact den_sq wf SS.D ho hx hmem
+    rw [hden] at hn
+    obtain ⟨j, hj, hje⟩ := List.getElem_of_mem hmem
+    have hjo : spec.seqs[j]? = some o := by rw [List.getElem?_eq_getElem hj, hje]
+    obtain ⟨num', cn, hnum', hcan, hreach⟩ := conn_seq S j o hjo (revOfNum num) x n hn
+    -- the number `conn_seq` speaks of is `num`
+    obtain ⟨n0, hall, hcls⟩ := numOf_obj wf hmem
+    rw [hall (revOfNum num)] at hnum'
+    have hnumEq : n0 + (if revOfNum num = true then 1 else 0) = num := by
+      unfold objOfNum at ho
+      unfold revOfNum
+      by_cases hb : num / 2 < spec.baseSeqs.length
+      · simp only [hb, if_true] at ho
+        have hk1 := mem_enum_of_getElem? ho
+        rcases hcls with ⟨_, k, hk, rfl⟩ | ⟨hsup, _⟩
+        · obtain ⟨rfl, _⟩ := baseSeqs_index_unique wf hk hk1 rfl
+          by_cases hm2 : num % 2 = 1 <;> simp [hm2] <;> omega
+        · have := (mem_baseSeqs (List.mem_of_getElem? ho)).2
+          rw [hsup] at this; cases this
+      · simp only [hb, if_false] at ho
+        have hk1 := mem_enum_of_getElem? ho
+        rcases hcls with ⟨hsup, _⟩ | ⟨_, k, hk, rfl⟩
+        · have := (mem_supSeqs (List.mem_of_getElem? ho)).2
+          rw [hsup] at this; cases this
+        · have := supSeqs_index_unique wf hk hk1
+          subst this
+          by_cases hm2 : num % 2 = 1 <;> simp [hm2] <;> omega
+    rw [hnumEq] at hnum'
+    cases hnum'
+    exact ⟨cn, hcan, by rw [hpx]; exact hreach⟩
+
+/-- **Completeness of the seeding**: nucleotides the design forces equal / complementary sit on nodes that are
+    connected with that parity in the seeded graph -/
+theorem graph_complete (S : Seeded tbl mode spec s c) {x y : Nat} (hx : x ∈ c.keys) (hy : y ∈ c.keys)
+    {m n : Nuc} (hm : denOf mode spec x = some m) (hn : denOf mode spec y = some n) {p : Bool}
+    (h : NucReach (Pil.denote spec) m p n) : GR c x p y := by
+  obtain ⟨cm, hcm, grm⟩ := conn_key S hx hm
+  obtain ⟨cn, hcn, grn⟩ := conn_key S hy hn
+  obtain ⟨cw, hcw, gr⟩ := parityReach_graph S h hcm
+  have := canonV_unique S.wf _ hcw hcn
+  subst this
+  have := (grm.trans gr).trans (S.symm grn)
+  have e : ((m.comp ^^ ((p != m.comp) != n.comp)) ^^ n.comp) = p := by
+    cases p <;> cases m.comp <;> cases n.comp <;> rfl
+  rw [e] at this
+  exact this
+
+/-! ## from the seeded graph back to the design -/
+
+/-- the canonical node of a declared domain position is a key and carries the position's template letter -/
+theorem canon_template (S : Seeded tbl mode spec s c) {v : Var} {cv : Nat}
+    (h : CanonV spec (encOf spec (layOf mode spec)) v cv) :
+    cv ∈ c.keys ∧ ∀ b, hasB (stMask tbl c.st cv) b → okVar tbl (Pil.denote spec) v b := by
+  have wf := S.wf
+  obtain ⟨k, ob, hk, hname, hidx, rfl⟩ := h
+  have hmem := mem_baseSeqs (mem_enum hk).1
+  simp only at hmem
+  have hb := wf.base ob hmem.1 hmem.2
+  have hidx' : v.idx < ob.template.length := by rw [hb.1]; exact hidx
+  obtain ⟨li, ce, be, ee, se, te, h1, _, _, _, _, _, hseq⟩ := seeds_ok S.hs
+  obtain ⟨_, hkeys, _, hst, _, _⟩ := build_spec (tbl := tbl) S.hb (seeds_codes S.ok S.hs)
+  have hin : ((encOf spec (layOf mode spec)).sq (2 * k) v.idx, ob.template[v.idx]) ∈ s.inits := by
+    rw [hseq]
+    apply List.mem_append_right
+    unfold seqInits
+    apply List.mem_append_left
+    refine List.mem_flatMap.2 ⟨(k, ob), hk, ?_⟩
+    apply List.mem_append_left
+    refine List.mem_map.2 ⟨(v.idx, ob.template[v.idx]), ?_, rfl⟩
+    exact mem_enum_of_getElem? (List.getElem?_eq_getElem hidx')
+  refine ⟨by rw [hkeys]; exact List.mem_map.2 ⟨_, hin, rfl⟩, ?_⟩
+  intro b hbit dom hdom hdn ch hch
+  have hstv : stMask tbl c.st ((encOf spec (layOf mode spec)).sq (2 * k) v.idx) = tbl.maskC ob.template[v.idx] := by
+    simp [stMask, hst _ hin]
+  rw [hstv] at hbit
+  simp only [Pil.denote, List.mem_map, List.mem_filter] at hdom
+  obtain ⟨o', ⟨ho', _⟩, rfl⟩ := hdom
+  have : o' = ob := seq_unique wf (mem_baseSeqs ho').1 hmem.1 (by simp only at hdn; rw [hdn, hname])
+  subst this
+  simp only at hch
+  rw [List.getElem?_eq_getElem hidx'] at hch
+  cases hch
+  exact hbit
+
+/-- a domain position without canonical node is touched by no link and constrained by no template -/
+theorem undeclared_isolated (S : Seeded tbl mode spec s c) {v : Var}
+    (hv : ¬ ∃ cv, CanonV spec (encOf spec (layOf mode spec)) v cv) :
+    (∀ p w, ParityReach (Pil.denote spec) v p w → w = v ∧ p = false) ∧ ∀ b, okVar tbl (Pil.denote spec) v b := by
+  have wf := S.wf
+  constructor
+  · intro p w h
+    induction h with
+    | refl => exact ⟨rfl, rfl⟩
+    | @fwd w' q e _ he ha ih =>
+      obtain ⟨rfl, _⟩ := ih
+      obtain ⟨ca, _, hca, _, _⟩ := link_realised S he
+      exact absurd ⟨ca, ha ▸ hca⟩ hv
+    | @bwd w' q e _ he hb ih =>
+      obtain ⟨rfl, _⟩ := ih
+      obtain ⟨_, cb, _, hcb, _⟩ := link_realised S he
+      exact absurd ⟨cb, hb ▸ hcb⟩ hv
+  · intro b dom hdom hdn ch hch
+    exfalso
+    simp only [Pil.denote, List.mem_map, List.mem_filter] at hdom
+    obtain ⟨o', ⟨ho', _⟩, rfl⟩ := hdom
+    obtain ⟨j, hj, hje⟩ := List.getElem_of_mem ho'
+    have hk : (j, o') ∈ enum spec.baseSeqs := mem_enum_of_getElem? (by rw [List.getElem?_eq_getElem hj, hje])
+    have hb := wf.base o' (mem_baseSeqs ho').1 (mem_baseSeqs ho').2
+    simp only at hch hdn
+    have hidx : v.idx < o'.len := by rw [← hb.1]; exact getElem?_lt hch
+    exact hv ⟨_, j, o', hk, hdn, hidx, rfl⟩
+
+/-- **Completeness for satisfiability**: if the seeded graph is not over-constrained, the design is satisfiable -/
+theorem satisfiable_of_graphSat (S : Seeded tbl mode spec s c) (hsat : GraphSat tbl c) :
+    Satisfiable tbl (Pil.denote spec) := by
+  rw [satisfiable_iff]
+  constructor
+  · intro v hself
+    cases Classical.em (∃ cv, CanonV spec (encOf spec (layOf mode spec)) v cv) with
+    | inl hc =>
+      obtain ⟨cv, hcv⟩ := hc
+      obtain ⟨cw, hcw, gr⟩ := parityReach_graph S hself hcv
+      have := canonV_unique S.wf _ hcw hcv
+      subst this
+      exact (hsat cw (canon_template S hcv).1).1 gr
+    | inr hc =>
+      have := ((undeclared_isolated S hc).1 _ _ hself).2
+      cases this
+  · intro v
+    cases Classical.em (∃ cv, CanonV spec (encOf spec (layOf mode spec)) v cv) with
+    | inl hc =>
+      obtain ⟨cv, hcv⟩ := hc
+      obtain ⟨_, b, hb⟩ := hsat cv (canon_template S hcv).1
+      refine ⟨b, fun w p hr => ?_⟩
+      obtain ⟨cw, hcw, gr⟩ := parityReach_graph S hr hcv
+      exact (canon_template S hcw).2 _ (hb cw p gr)
+    | inr hc =>
+      refine ⟨.A, fun w p hr => ?_⟩
+      obtain ⟨rfl, rfl⟩ := (undeclared_isolated S hc).1 _ _ hr
+      exact (undeclared_isolated S hc).2 _
+
+/-! ## exactness in terms of the design -/
+
+/-- **The seeded graph and the semantic link graph agree** on every pair of nodes -/
+theorem reach_iff (S : Seeded tbl mode spec s c) {x y : Nat} (hx : x ∈ c.keys) (hy : y ∈ c.keys)
+    {m n : Nuc} (hm : denOf mode spec x = some m) (hn : denOf mode spec y = some n) (p : Bool) :
+    GR c x p y ↔ NucReach (Pil.denote spec) m p n := by
+  constructor
+  · intro h
+    obtain ⟨n', hn', hr⟩ := reach_sound_of S.wf S.ok S.hs S.hb h hm
+    rw [hn] at hn'; cases hn'
+    exact hr
+  · exact graph_complete S hx hy hm hn
+
+/-- an index of the arrays is non-blank iff it is a key (position) of the seeded graph -/
+theorem nonblank_iff_key {P : Nat} {a : Arrays} (G : GraphExact tbl c P a) {i : Nat} (hi : i < a.1.length) :
+    (∃ ch, a.2.2[i]? = some (some ch)) ↔ i ∈ c.keys := by
+  constructor
+  · rintro ⟨ch, hch⟩
+    cases Classical.em (i ∈ c.keys) with
+    | inl h => exact h
+    | inr h => rw [(G.blank i hi h).2.2] at hch; cases hch
+  · intro hk
+    obtain ⟨_, _, ch, hch, _⟩ := G.key i hi hk
+    exact ⟨ch, hch⟩
+
+/-- `IsMin` over the classes of the seeded graph, read in the design: the lowest non-blank index whose nucleotide
+    the design forces equal (`p = false`) / complementary (`p = true`) to the one at `i` -/
+def SemMin (mode : Layout) (spec : Spec) (a : Arrays) (m : Nuc) (p : Bool) (o : Option Nat) : Prop :=
+  match o with
+  | some r => (∃ ch n, a.2.2[r]? = some (some ch) ∧ denOf mode spec r = some n ∧ NucReach (Pil.denote spec) m p n) ∧
+      ∀ j ch n, a.2.2[j]? = some (some ch) → denOf mode spec j = some n → NucReach (Pil.denote spec) m p n → r ≤ j
+  | none => ∀ j ch n, a.2.2[j]? = some (some ch) → denOf mode spec j = some n → ¬ NucReach (Pil.denote spec) m p n
+
+theorem semMin_of_isMin (S : Seeded tbl mode spec s c) (hN : tbl.maskC 'N' = 15) {a : Arrays}
+    (G : GraphExact tbl c s.P a) {i : Nat} (hk : i ∈ c.keys) {m : Nuc}
+    (hm : denOf mode spec i = some m) {p : Bool} {o : Option Nat} (h : IsMin s.P (GR c i p) o) :
+    SemMin mode spec a m p o := by
+  have wfc := (build_spec (tbl := tbl) S.hb (seeds_codes S.ok S.hs)).1
+  have keyOf : ∀ y, GR c i p y → y ∈ c.keys := by
+    intro y hy
+    have := hy.mem_keys wfc.pre.keyClosed (by rw [keys_adjOf]; exact hk)
+    rwa [keys_adjOf] at this
+  cases o with
+  | some r =>
+    obtain ⟨h1, h2, h3⟩ := h
+    have hrk := keyOf r h1
+    have hrn : r < a.1.length := G.bound r hrk h2
+    obtain ⟨ch, hch⟩ := (nonblank_iff_key G hrn).2 hrk
+    obtain ⟨n, hn, _⟩ := key_den_of S.wf S.ok hN S.hs S.hb hrk
+    refine ⟨⟨ch, n, hch, hn, (reach_iff S hk hrk hm hn p).1 h1⟩, ?_⟩
+    intro j chj nj hj hnj hr
+    have hjn : j < a.1.length := by rw [← G.len_st]; exact getElem?_lt hj
+    have hjk := (nonblank_iff_key G hjn).1 ⟨chj, hj⟩
+    exact h3 j ((reach_iff S hk hjk hm hnj p).2 hr) (Nat.lt_of_lt_of_le hjn G.le_P)
+  | none =>
+    intro j chj nj hj hnj hr
+    have hjn : j < a.1.length := by rw [← G.len_st]; exact getElem?_lt hj
+    have hjk := (nonblank_iff_key G hjn).1 ⟨chj, hj⟩
+    exact h j ((reach_iff S hk hjk hm hnj p).2 hr) (Nat.lt_of_lt_of_le hjn G.le_P)
+
+/-- **Exactness of the arrays in terms of the design** (both layouts), for a non-blank index `i` -/
+theorem arrays_exact_aux (S : Seeded tbl mode spec s c) (hN : tbl.maskC 'N' = 15) {a : Arrays}
+    (G : GraphExact tbl c s.P a) {i : Nat} {ch : Char} (hi : a.2.2[i]? = some (some ch)) :
+    ∃ m v w, denOf mode spec i = some m ∧ a.1[i]? = some v ∧ a.2.1[i]? = some w ∧
+      SemMin mode spec a m false v ∧ SemMin mode spec a m true w ∧
+      (∀ b, hasB (tbl.maskC ch) b ↔
+        ∀ u q, ParityReach (Pil.denote spec) m.var q u →
+          okVar tbl (Pil.denote spec) u (flipB (flipB b m.comp) q)) := by
+  have hlt : i < a.1.length := by rw [← G.len_st]; exact getElem?_lt hi
+  have hk := (nonblank_iff_key G hlt).1 ⟨ch, hi⟩
+  obtain ⟨m, hm, _⟩ := key_den_of S.wf S.ok hN S.hs S.hb hk
+  obtain ⟨⟨v, hv, hvmin⟩, ⟨w, hw, hwmin⟩, ch', hch', _, hbits⟩ := G.key i hlt hk
+  rw [hi] at hch'; cases hch'
+  refine ⟨m, v, w, hm, hv, hw, semMin_of_isMin S hN G hk hm hvmin, semMin_of_isMin S hN G hk hm hwmin, ?_⟩
+  intro b
+  constructor
+  · intro hb u q hr
+    obtain ⟨cm, hcm, grm⟩ := conn_key S hk hm
+    obtain ⟨cu, hcu, gr⟩ := parityReach_graph S hr hcm
+    have := (hbits b).1 hb cu _ (grm.trans gr)
+    have := (canon_template S hcu).2 _ this
+    rwa [← flipB_flipB] at this
+  · intro hsem
+    obtain ⟨_, _, _, _, h3⟩ := arrays_sound_aux S.wf S.ok hN S.hs S.hb G hlt hk
+    obtain ⟨m', hm', _, _, h3⟩ := arrays_sound_aux S.wf S.ok hN S.hs S.hb G hlt hk
+    rw [hm] at hm'; cases hm'
+    exact h3 ch hi b hsem
+
+theorem semMin_unique {a : Arrays} {m : Nuc} {p : Bool} {o o' : Option Nat}
+    (h : SemMin mode spec a m p o) (h' : SemMin mode spec a m p o') : o = o' := by
+  cases o <;> cases o'
+  · rfl
+  · obtain ⟨⟨ch, n, h1, h2, h3⟩, _⟩ := h'
+    exact absurd h3 (h _ ch n h1 h2)
+  · obtain ⟨⟨ch, n, h1, h2, h3⟩, _⟩ := h
+    exact absurd h3 (h' _ ch n h1 h2)
+  · rename_i r r'
+    obtain ⟨⟨ch, n, h1, h2, h3⟩, hmin⟩ := h
+    obtain ⟨⟨ch', n', h1', h2', h3'⟩, hmin'⟩ := h'
+    have := hmin _ ch' n' h1' h2' h3'
+    have := hmin' _ ch n h1 h2 h3
+    simp only [Option.some.injEq]; omega
+
+theorem semMin_congr {a : Arrays} {m m' : Nuc} {p : Bool} {o : Option Nat}
+    (hmm : NucReach (Pil.denote spec) m' false m) (h : SemMin mode spec a m p o) : SemMin mode spec a m' p o := by
+  have fwd : ∀ n, NucReach (Pil.denote spec) m p n → NucReach (Pil.denote spec) m' p n := by
+    intro n hn; have := NucReach.trans hmm hn; simpa using this
+  have bwd : ∀ n, NucReach (Pil.denote spec) m' p n → NucReach (Pil.denote spec) m p n := by
+    intro n hn; have := NucReach.trans (NucReach.symm hmm) hn; simpa using this
+  cases o with
+  | some r =>
+    obtain ⟨⟨ch, n, h1, h2, h3⟩, hmin⟩ := h
+    exact ⟨⟨ch, n, h1, h2, fwd n h3⟩, fun j chj nj hj hnj hr => hmin j chj nj hj hnj (bwd nj hr)⟩
+  | none =>
+    exact fun j chj nj hj hnj hr => h j chj nj hj hnj (bwd nj hr)
+
+/-- two non-blank indices carry the same equality representative exactly when the design forces their
+    nucleotides equal -/
+theorem eq_iff_forced_equal (S : Seeded tbl mode spec s c) (hN : tbl.maskC 'N' = 15) {a : Arrays}
+    (G : GraphExact tbl c s.P a) {i j : Nat} {ci cj : Char} (hi : a.2.2[i]? = some (some ci))
+    (hj : a.2.2[j]? = some (some cj)) {m n : Nuc} (hm : denOf mode spec i = some m) (hn : denOf mode spec j = some n) :
+    a.1[i]? = a.1[j]? ↔ NucReach (Pil.denote spec) m false n := by
+  obtain ⟨m', vi, _, hm', hvi, _, hsi, _, _⟩ := arrays_exact_aux S hN G hi
+  obtain ⟨n', vj, _, hn', hvj, _, hsj, _, _⟩ := arrays_exact_aux S hN G hj
+  rw [hm] at hm'; cases hm'
+  rw [hn] at hn'; cases hn'
+  rw [hvi, hvj]
+  constructor
+  · intro e
+    simp only [Option.some.injEq] at e
+    subst e
+    cases vi with
+    | none => exact absurd (NucReach.refl _ m) (hsi i ci m hi hm)
+    | some r =>
+      obtain ⟨⟨_, nr, _, hnr, h3⟩, _⟩ := hsi
+      obtain ⟨⟨_, nr', _, hnr', h3'⟩, _⟩ := hsj
+      rw [hnr] at hnr'; cases hnr'
+      have := NucReach.trans h3 (NucReach.symm h3')
+      simpa using this
+  · intro hr
+    have := semMin_unique hsi (semMin_congr hr hsj)
+    rw [this]
+
 end Graph
 
 end Pepper.ConstraintGen
